@@ -333,6 +333,18 @@ def iter5(eng, out):
                 if not cpath or prog is None or prog.facts.fn(cpath) is None:
                     continue
                 g2 = prog.inlined(prog.facts.fn(cpath))
+                from body import BodyInfo
+                bi2 = BodyInfo(g2)
+
+                def from_env(l, seen=None):
+                    """Does local `l` of the closure derive from its captured environment (local 1)?"""
+                    seen = seen if seen is not None else set()
+                    if l == 1:
+                        return True
+                    if l in seen:
+                        return False
+                    seen.add(l)
+                    return any(from_env(x, seen) for x in bi2.deps[l])
                 for b2, blk2 in enumerate(g2.blocks):
                     t2 = blk2["term"]
                     if blk2["cleanup"] or t2["k"] != "call" or not t2.get("callee"):
@@ -341,8 +353,10 @@ def iter5(eng, out):
                     m2 = d2.rsplit("::", 1)[1]
                     sty = (t2["callee"].get("self_ty") or {})
                     seq_iter = sty.get("adt") in ("core::slice::Iter", "core::slice::IterMut", "alloc::vec::IntoIter", "alloc::collections::vec_deque::Iter") and sty.get("peel", 0) <= 1
-                    if (d2.startswith("core::iter::Iterator::") and m2 in SEARCH_ADAPTORS + ("count", "fold", "last", "nth", "sum") and seq_iter) or \
-                            (d2.startswith("core::slice::") and m2 in ("contains", "binary_search")) or (d2.startswith("alloc::vec::Vec::<T") and m2 in ("contains",)):
+                    a0 = (t2.get("args") or [{}])[0]
+                    captured = a0.get("k") in ("copy", "move") and from_env(a0["pl"]["l"])      # not a literal array of the closure's own
+                    if captured and ((d2.startswith("core::iter::Iterator::") and m2 in SEARCH_ADAPTORS + ("count", "fold", "last", "nth", "sum") and seq_iter) or
+                                     (d2.startswith("core::slice::") and m2 in ("contains", "binary_search")) or (d2.startswith("alloc::vec::Vec::<T") and m2 in ("contains",))):
                         out.obl("ITER-5", "scan-in-closure", (eng.name, b))
                         out.violate("ITER-5", "sequence-scan-in-closure-in-group-loop:%s" % m2, "a closure run by `%s` inside a loop over %s walks a sequence it captured (`%s`): one linear scan per call, the work is no longer linear in objects plus adoptions" % (
                             t["callee"]["def"].rsplit("::", 1)[1], drivers[h][2], m2), where_of(g, b), entry=eng.name)
